@@ -171,8 +171,14 @@ def devar(t):
 
 
 def lookup_or_same(ev, cond, value, key_ok, table_ok) -> bool:
-    """``value`` (under path condition ``cond``) is ``table.get(key, key)`` in one of its spellings: the ``get`` call, the conditional
-    expression ``table[key] if key in table else key``, or -- on a path that already decided membership -- ``table[key]`` resp. ``key``."""
+    """``value`` (under path condition ``cond``) is ``table.get(key, key)`` in one of its spellings."""
+    return lookup_or(ev, cond, value, key_ok, table_ok, lambda k: k)
+
+
+def lookup_or(ev, cond, value, key_ok, table_ok, default_of) -> bool:
+    """``value`` (under path condition ``cond``) is ``table.get(key, default_of(key))`` in one of its spellings: the ``get`` call, the
+    conditional expression ``table[key] if key in table else default``, or -- on a path that already decided membership -- ``table[key]``
+    resp. the default."""
     from ..sym import satisfiable, t_and, t_not, Unsupported
 
     def implies(a, b):
@@ -186,19 +192,17 @@ def lookup_or_same(ev, cond, value, key_ok, table_ok) -> bool:
         value = value[3]
     if is_call_of(value, "get") and table_ok(value[1][1]):
         a, kw = call_args(value)
-        dflt = a[1] if len(a) > 1 else kw.get("default")
-        return len(a) >= 1 and key_ok(a[0]) and dflt == a[0]
+        dflt = a[1] if len(a) > 1 else kw.get("default", NONE)
+        return len(a) >= 1 and key_ok(a[0]) and dflt == default_of(a[0])
     if value[0] == "ite":
         c, x, y = value[1], value[2], value[3]
         if c[0] == "not":
             c, x, y = c[1], y, x
-        return c[0] == "in" and key_ok(c[1]) and table_ok(c[2]) and x == ("sub", c[2], c[1]) and y == c[1]
+        return c[0] == "in" and key_ok(c[1]) and table_ok(c[2]) and x == ("sub", c[2], c[1]) and y == default_of(c[1])
     if value[0] == "sub" and table_ok(value[1]) and key_ok(value[2]):
         return implies(cond, ("in", value[2], value[1]))
-    if key_ok(value):
-        ins = [a for a in _atoms(cond) if a[0] == "in" and a[1] == value and table_ok(a[2])]
-        return any(implies(cond, t_not(a)) for a in ins)
-    return False
+    ins = [a for a in _atoms(cond) if a[0] == "in" and key_ok(a[1]) and table_ok(a[2])]
+    return any(value == default_of(a[1]) and implies(cond, t_not(a)) for a in ins)
 
 
 def _atoms(t, acc=None):
